@@ -216,10 +216,23 @@ func (h *c17Run) c17xPresentReader(rd *c17xReader, sc c17xScript) (io.Reader, fu
 	case "b":
 		return bytes.NewReader(data), func() {}, nil
 	case "f":
-		p := filepath.Join(h.dir, fmt.Sprintf("src%d", h.nsrc))
-		h.nsrc++
-		if err := os.WriteFile(p, data, 0o600); err != nil {
-			return nil, nil, err
+		// the snapshot as a file on the caller's disk: ONE file per snapshot, written once and handed in again by
+		// every later restore of the same snapshot (a restore must leave the caller's file alone, and restoring
+		// it a second time - after the database has been written to - must give the snapshot again)
+		key := fmt.Sprintf("%d:%08x", len(data), c17xFnv(string(data)))
+		if h.srcOf == nil {
+			h.srcOf = map[string]string{}
+		}
+		p, ok := h.srcOf[key]
+		if !ok {
+			p = filepath.Join(h.dir, fmt.Sprintf("src%d", h.nsrc))
+			h.nsrc++
+			if err := os.WriteFile(p, data, 0o600); err != nil {
+				return nil, nil, err
+			}
+			h.srcOf[key] = p
+		} else {
+			h.stats["op_restorer_f_same_file_again"]++
 		}
 		f, err := os.Open(p)
 		if err != nil {
@@ -279,9 +292,10 @@ var c17HangWait = 15 * time.Second // generous: a slow disk (fsync under load) m
 var c17Hangs = 0
 
 type c17xBody struct {
-	kind string // c v s t w
+	kind string // c v s t w ; b blocks for good, d returns once listener number dep has returned (c17_view.go)
 	mode string
 	key  []byte
+	dep  int
 }
 
 func c17xTouched(p [][]byte) bool {
@@ -309,6 +323,10 @@ func c17xFnv(s string) uint32 {
 func (h *c17Run) c17xListener(idx int, b c17xBody) func() {
 	return func() {
 		debug.SetPanicOnFault(true)
+		h.mu.Lock()
+		g := h.lgen // the restore that started this listener (c17_view.go)
+		h.mu.Unlock()
+		g.start(idx)
 		atomic.AddInt64(&h.fired, 1)
 		obs := "c"
 		defer func() {
@@ -316,13 +334,26 @@ func (h *c17Run) c17xListener(idx int, b c17xBody) func() {
 				obs = b.kind + ":err"
 			}
 			h.mu.Lock()
-			if idx < len(h.lobs) {
+			if idx < len(h.lobs) && h.lgen == g {
 				h.lobs[idx] = obs
 			}
 			h.mu.Unlock()
+			g.finish(idx)
 			atomic.AddInt64(&h.ldone, 1)
 		}()
 		switch b.kind {
+		case "b":
+			// does not return (until the harness has made its observations and lets it go)
+			<-g.release
+			obs = "b:released"
+		case "d":
+			// depends on what listener number dep provides: returns once that one has returned
+			select {
+			case <-g.doneOf(b.dep):
+				obs = "d"
+			case <-g.release:
+				obs = "d:released"
+			}
 		case "v":
 			var seen []csEntry
 			err := h.db.View(func(tx *bbolt.Tx) error {
@@ -395,6 +426,8 @@ func (h *c17Run) opAddDbListener(b c17xBody) {
 		h.emit("addlt "+b.mode, "addl")
 	case "w":
 		h.emit("addlw "+hx(b.key), "addl")
+	case "d":
+		h.emit(fmt.Sprintf("addld %d", b.dep), "addl")
 	default:
 		h.emit("addl"+b.kind, "addl")
 	}
@@ -428,10 +461,26 @@ func (h *c17Run) doRestore(caseTok string, refusable bool, restore func()) {
 		return
 	}
 	defer h.guard()
-	want := atomic.LoadInt64(&h.ldone) + int64(h.listeners)
+	// every registered listener has to be started; those that can return (c17_view.go) have to return
+	wantAll := atomic.LoadInt64(&h.ldone) + int64(h.listeners)
+	want := atomic.LoadInt64(&h.ldone) + int64(c17vReturning(h.lbodies))
+	wantFired := atomic.LoadInt64(&h.fired) + int64(h.listeners)
+	g := newC17vGen(h.listeners)
 	h.mu.Lock()
 	h.lobs = make([]string, h.listeners)
+	h.lgen = g
 	h.mu.Unlock()
+	// listeners that wait are let go once the observations are made; the history goes on when all have left
+	stragglers := false
+	defer func() {
+		g.letGo()
+		if stragglers {
+			h.dead = true
+		}
+		for end := time.Now().Add(2 * time.Second); want < wantAll && !h.dead && g.pending() > 0 && time.Now().Before(end); {
+			time.Sleep(200 * time.Microsecond)
+		}
+	}()
 	result := make(chan interface{}, 1)
 	go func() {
 		// a truncated or corrupt file that was renamed over the database makes bbolt fault in its memory map:
@@ -475,12 +524,16 @@ func (h *c17Run) doRestore(caseTok string, refusable bool, restore func()) {
 	}
 	// restore listeners run asynchronously: wait until all of them have finished, then a grace period for extras
 	deadline := time.Now().Add(c17ListenerWait)
-	for atomic.LoadInt64(&h.ldone) < want && time.Now().Before(deadline) {
+	for (atomic.LoadInt64(&h.ldone) < want || atomic.LoadInt64(&h.fired) < wantFired) && time.Now().Before(deadline) {
 		time.Sleep(200 * time.Microsecond)
 	}
-	if atomic.LoadInt64(&h.ldone) < want {
+	if atomic.LoadInt64(&h.ldone) < want || atomic.LoadInt64(&h.fired) < wantFired {
 		c17ListenerWait = 50 * time.Millisecond // already a finding; do not wait seconds for each later restore
-		if atomic.LoadInt64(&h.fired) >= want {
+		if want < wantAll {
+			// with listeners that wait for each other the stragglers would run into the later operations
+			stragglers = true
+		}
+		if atomic.LoadInt64(&h.fired) >= wantFired {
 			// all were started, some never came back from the database
 			h.dead = true
 			h.emit(caseTok, fmt.Sprintf("restore listeners-stuck fired=%d done=%d", atomic.LoadInt64(&h.fired), atomic.LoadInt64(&h.ldone)))
@@ -502,6 +555,9 @@ func (h *c17Run) doRestore(caseTok string, refusable bool, restore func()) {
 		for i, o := range h.lobs {
 			if o == "" {
 				o = "-"
+				if g.started(i) && i < len(h.lbodies) {
+					o = h.lbodies[i].kind + ":waiting" // started, has not returned
+				}
 			}
 			ls[i] = o
 		}
